@@ -96,6 +96,14 @@ class C12(Check):
             for en in enders:
                 progs.append([("extra", b"e", Opts()), ("write", bad)] + en + ([("finish",)] if en != [("finish",)] else []))
                 progs.append([("extra", b"e", Opts()), ("endlocal",), ("write", bad)] + en)
+        # a finish() refused for an archive comment that does not fit 16 bits must leave the writer as it was: the pending
+        # entry (an open file, a raw copy) is continued / kept, a corrected comment and a second finish() give the archive
+        LONGC = b"C" * 65536
+        for head in ([("rawcopy", src, 0, None)], [("file", b"a", Opts(method=8)), ("write", b"xyz")], [("file", b"a", Opts()), ("write", b"xyz")],
+                     [("extra", b"e", Opts()), ("write", GOOD_EXTRA)], [("dir", b"d", Opts())], []):
+            progs.append(head + [("comment", LONGC), ("finish",), ("comment", b"cm"), ("finish",)])
+            progs.append(head + [("comment", LONGC), ("finish",), ("write", b"xyz"), ("comment", b"cm"), ("finish",)])
+            progs.append(head + [("comment", LONGC), ("finish",), ("file", b"b/c", Opts()), ("write", b"xyz"), ("comment", b""), ("finish",)])
         # the encryption option: only start_file + write*
         for m in (0, 8):
             progs.append([("file", b"enc", Opts(method=m, pw=b"pw")), ("write", b"secret"), ("write", b" data"), ("file", b"plain", Opts()), ("write", b"p"), ("finish",)])
